@@ -1557,6 +1557,22 @@ class CodeGenerator(NodeVisitor):
         self.write(f"{frame.symbols.ref(node.name)} = ")
         self.macro_def(macro_ref, macro_frame)
 
+    def _call_block_result_pre(self, frame: Frame) -> None:
+        """Output written before the call of a call block: its result is
+        output like any other expression.  A macro returns Markup when
+        autoescaping is on; any other callable may return a plain string
+        that still needs escaping.
+        """
+        if frame.eval_ctx.volatile:
+            self.write("(escape if context.eval_ctx.autoescape else str)(")
+        elif frame.eval_ctx.autoescape:
+            self.write("escape(")
+        else:
+            self.write("str(")
+
+    def _call_block_result_post(self, frame: Frame) -> None:
+        self.write(")")
+
     def visit_CallBlock(self, node: nodes.CallBlock, frame: Frame) -> None:
         # If an extends is active, a call block outside a block renders
         # nothing, like any other output of a child template.
@@ -1571,16 +1587,9 @@ class CodeGenerator(NodeVisitor):
         self.writeline("caller = ")
         self.macro_def(macro_ref, call_frame)
         self.start_write(frame, node)
-        # A macro returns Markup when autoescaping is on; any other
-        # callable may return a plain string that still needs escaping.
-        if frame.eval_ctx.volatile:
-            self.write("(escape if context.eval_ctx.autoescape else str)(")
-        elif frame.eval_ctx.autoescape:
-            self.write("escape(")
-        else:
-            self.write("str(")
+        self._call_block_result_pre(frame)
         self.visit_Call(node.call, frame, forward_caller=True)
-        self.write(")")
+        self._call_block_result_post(frame)
         self.end_write(frame)
 
         if frame.require_output_check:
